@@ -54,6 +54,11 @@ type Round struct {
 	K      int  `json:"k"`
 	After  bool `json:"after"`
 	Settle int  `json:"settle_us"`
+	// Catchup: (3 nodes) a second crash plan on the restarted node while it catches up (K2-th durable write, e.g. the
+	// install of a snapshot received from the leader)
+	Catchup bool `json:"catchup"`
+	K2      int  `json:"k2"`
+	After2  bool `json:"after2"`
 }
 
 type Case struct {
@@ -99,6 +104,11 @@ func genCase(t *rapid.T) Case {
 		r.K = rapid.IntRange(1, 6).Draw(t, "k")
 		r.After = rapid.Bool().Draw(t, "after")
 		r.Settle = rapid.SampledFrom([]int{0, 0, 100, 500, 2000}).Draw(t, "settle")
+		if c.Nodes == 3 {
+			r.Catchup = rapid.Bool().Draw(t, "catchup")
+			r.K2 = rapid.IntRange(1, 4).Draw(t, "k2")
+			r.After2 = rapid.Bool().Draw(t, "after2")
+		}
 		c.Rounds = append(c.Rounds, r)
 	}
 	return c
@@ -205,11 +215,14 @@ func check(c Case, o *pbt.Obs) *pbt.Failure {
 	}
 	boundaryKinds := map[string]bool{}
 	nontrivial := false
+	// id -> possible states from ops that were not acknowledged: raft may still commit such an entry much later (it sits
+	// in some replica's log until a later leader commits or overwrites it), so the candidates survive rounds until no
+	// replica has an uncommitted tail any more
+	inflight := map[int][]state{}
 	for ri, r := range c.Rounds {
 		mu.Lock()
 		crashFlag = false
 		mu.Unlock()
-		inflight := map[int][]state{} // id -> possible states from ops not acknowledged before the crash
 		ackedBefore := 0
 		crashNode := r.N % c.Nodes
 		var fired *sim.MonWAL
@@ -364,6 +377,14 @@ func check(c Case, o *pbt.Obs) *pbt.Failure {
 			return pbt.Failf("C03:fatal-without-crash", "round %d: log.Fatal in a ready loop although no crash was injected there: %.600s", ri, f)
 		}
 		cl.Start(crashNode)
+		var catchupMon *sim.MonWAL
+		if r.Catchup && c.Nodes == 3 {
+			if ds := cl.Dataset(crashNode, slot); ds != nil {
+				if catchupMon = cl.Mon(crashNode, ds.VerifPartitionId(r.P%c.Partitions)); catchupMon != nil {
+					catchupMon.Arm(r.K2, r.After2)
+				}
+			}
+		}
 		if f := sim.TakeUnexpectedFatal(); f != "" {
 			return pbt.Failf("C03:restart-fails", "round %d: the restarted node hit log.Fatal while loading its partitions: %.600s", ri, f)
 		}
@@ -403,6 +424,22 @@ func check(c Case, o *pbt.Obs) *pbt.Failure {
 					}
 				}
 			}
+			if catchupMon != nil && !cl.Up(crashNode) {
+				// the second plan fired while the node was catching up: restart it once more, unarmed
+				if ks := catchupMon.Kinds; len(ks) > 0 {
+					ba := "before"
+					if r.After2 {
+						ba = "after"
+					}
+					o.Label("catchup-crash-at-" + ks[len(ks)-1] + "/" + ba)
+				}
+				catchupMon = nil
+				time.Sleep(300 * time.Microsecond)
+				cl.Start(crashNode)
+				cl.Elect(slot, 600)
+				deadline = time.Now().Add(3 * time.Second)
+				continue
+			}
 			if lastDiff == "" || time.Now().After(deadline) {
 				break
 			}
@@ -413,6 +450,9 @@ func check(c Case, o *pbt.Obs) *pbt.Failure {
 			}
 			time.Sleep(200 * time.Microsecond)
 		}
+		if catchupMon != nil {
+			catchupMon.Disarm()
+		}
 		for _, v := range cl.WalViolations() {
 			return pbt.Failf("C03:log-store-invariant", "round %d after restart: %s", ri, v)
 		}
@@ -420,7 +460,24 @@ func check(c Case, o *pbt.Obs) *pbt.Failure {
 			return pbt.Failf("C03:fatal-after-restart", "round %d: log.Fatal after restart: %.600s", ri, f)
 		}
 		if lastDiff != "" {
-			return pbt.Failf("C03:acknowledged-write-lost-or-invented", "round %d (crash node %d, partition %d, write #%d, after=%v): %s", ri, crashNode, r.P, r.K, r.After, lastDiff)
+			var views []string
+			for i := 0; i < c.Nodes; i++ {
+				ds := cl.Dataset(i, slot)
+				if ds == nil {
+					views = append(views, fmt.Sprintf("node%d:down", i))
+					continue
+				}
+				part := fmt.Sprintf("node%d:", i)
+				for id := 0; id < 8; id++ {
+					part += readState(ds, id, c.Partitions).String() + ";"
+				}
+				for _, g := range cl.Groups(i, slot) {
+					st := g.VerifStatus()
+					part += fmt.Sprintf(" raft{term=%d lead=%x state=%v commit=%d applied=%d}", st.Term, st.Lead, st.RaftState, st.Commit, st.Applied)
+				}
+				views = append(views, part)
+			}
+			return pbt.Failf("C03:acknowledged-write-lost-or-invented", "round %d (crash node %d, partition %d, write #%d, after=%v; catch-up plan %v #%d after=%v): %s ;; replicas: %s", ri, crashNode, r.P, r.K, r.After, r.Catchup, r.K2, r.After2, lastDiff, strings.Join(views, " | "))
 		}
 		// the recovered state becomes the acknowledged baseline of the next round: wait until every replica has
 		// applied everything that is committed and all replicas hold the same contents (in-flight ops may still land)
@@ -485,6 +542,13 @@ func check(c Case, o *pbt.Obs) *pbt.Failure {
 		if ds := cl.Dataset(crashNode, slot); ds != nil {
 			for id := 0; id < 8; id++ {
 				acked[id] = readState(ds, id, c.Partitions)
+			}
+		}
+		// (in-flight candidates are never dropped: an unacknowledged entry can sit in a replica's log and be committed by a
+		// later leader, rounds later; ids touched by such ops are judged against all their candidates from then on)
+		for id, ss := range inflight {
+			if len(ss) > 0 {
+				inflight[id] = append(ss, acked[id])
 			}
 		}
 	}
